@@ -325,6 +325,19 @@ ROUND10 = {
 }
 
 
+# round 11 (DESIGN.md 9.15)
+ROUND11 = {
+    "C04": " Round 11: (R5) conjunctions that hold nothing but groups, compared up to redundant parentheses.",
+    "C06": " Round 11: the write-back keeps the hash-map entries of pages it did not touch; the message bus handles nothing after a failing command (abstract run of messagebus._handle); the removal deletes the page row after its last interior commit.",
+    "C08": " Round 11: the syntax-error callback is run with e=None (inline-repaired errors) and must record without raising; the bus rule.",
+    "C11": " Round 11: (R8) the per-page order obligations of C06.R2 are adopted (the stamp decision reads the page's previous index state).",
+    "C13": " Round 11: the bus rule; the removal's commit order (R6).",
+    "C15": " Round 11: saved-query names with dots / dashes / sub-directories; (R6) C04.R5 adopted.",
+    "C16": " Round 11: a capture of the empty string is still a template variable.",
+    "C17": " Round 11: (R7) the per-page order obligations of C06.R2 are adopted.",
+}
+
+
 def main() -> None:
     props = [json.loads(l) for l in (VERIF / "properties.jsonl").read_text().splitlines() if l.strip()]
     checks = []
@@ -333,7 +346,7 @@ def main() -> None:
         pid = p["id"]
         if pid in CHECKS:
             tech, text, note, ref = CHECKS[pid]
-            text = text + ADDENDA.get(pid, "") + ROUND34.get(pid, "") + ROUND5.get(pid, "") + ROUND6.get(pid, "") + ROUND7.get(pid, "") + ROUND8.get(pid, "") + ROUND9.get(pid, "") + ROUND10.get(pid, "") + (METHOD if pid in ("C01", "C02", "C03", "C05", "C06", "C07", "C08", "C09", "C10", "C11", "C12", "C13", "C14", "C15", "C16", "C17", "C18") else "")
+            text = text + ADDENDA.get(pid, "") + ROUND34.get(pid, "") + ROUND5.get(pid, "") + ROUND6.get(pid, "") + ROUND7.get(pid, "") + ROUND8.get(pid, "") + ROUND9.get(pid, "") + ROUND10.get(pid, "") + ROUND11.get(pid, "") + (METHOD if pid in ("C01", "C02", "C03", "C05", "C06", "C07", "C08", "C09", "C10", "C11", "C12", "C13", "C14", "C15", "C16", "C17", "C18") else "")
             checks.append(
                 {
                     "property_id": pid,
